@@ -1,1 +1,122 @@
-import BigtreeModel.Basic
+import BigtreeModel.Plot
+import BigtreeProofs.Lemmas.Plot
+/-!
+# C19 — Reingold–Tilford coordinates form a tidy, non-overlapping drawing
+
+`Plot.layout P t` is the model of `reingold_tilford(t, sib, sub, lvl, xoff, yoff)` over exact
+rationals (`BigtreeModel/Plot.lean`); the theorems are about that rational algorithm, for every
+tree and **every** parameter value (no positivity is needed except where stated).
+
+What the code guarantees (the `_partial` set of the property, all proved here):
+`rt_levels`, `rt_midpoint`, `rt_siblings`, `rt_nonneg`.
+The remaining clause of the statement — any two nodes of one depth are at least
+`min sibling_separation subtree_separation` apart in their left-to-right order — is kept as
+`RT_full` and is **false** of the code (known finding K1): `rt_full_false`.
+-/
+
+namespace C19
+open Plot
+
+/-! ### concrete trees for the non-vacuity examples and the K1 witness -/
+
+def nd (cs : List Tree) : Tree := .node 0 [] [] cs
+def lf : Tree := nd []
+/-- K1: `r(a, b(c, d(e)), f(g(h, i)))` -/
+def k1Tree : Tree := nd [lf, nd [lf, nd [lf]], nd [nd [lf, lf]]]
+/-- all separations 1, no offsets -/
+def unitP : Params := { sib := 1, sub := 1, lvl := 1, xoff := 0, yoff := 0 }
+/-- sibling 1/2, subtree 3/2, level 2, offsets 5/2 and 7 -/
+def oddP : Params := { sib := 1/2, sub := 3/2, lvl := 2, xoff := 5/2, yoff := 7 }
+
+/-- the layout is a drawing of the *same* tree: no node is lost or invented
+    (so the statements below, which quantify over the nodes of the layout, speak about every node) -/
+theorem rt_shape (P : Params) (t : Tree) : (layout P t).sk = Sk.ofTree t :=
+  layout_sk P t
+
+example : (layout unitP k1Tree).subtrees.length = 10 := by decide +kernel
+
+/-- **levels**: nodes of one depth share their `y`; consecutive depths differ by the level
+    separation (the deeper level has the smaller `y`). -/
+theorem rt_levels (P : Params) (t : Tree) :
+    ∀ a ∈ (layout P t).withDepth 1, ∀ b ∈ (layout P t).withDepth 1,
+      (a.1 = b.1 → a.2.y = b.2.y) ∧ (b.1 = a.1 + 1 → a.2.y - b.2.y = P.lvl) := by
+  intro a ha b hb
+  rw [layout_eq] at ha hb
+  have h1 := fin_levels P _ _ _ _ _ a ha
+  have h2 := fin_levels P _ _ _ _ _ b hb
+  refine ⟨fun h => by rw [h1, h2, h], fun h => ?_⟩
+  rw [h1, h2, h]
+  have : (((a.1 + 1 : Nat)) : Rat) = (a.1 : Rat) + 1 := by exact_mod_cast rfl
+  rw [this]
+  grind
+
+-- non-vacuity: four depths occur, with several nodes on each of the lower three
+example : ((layout oddP k1Tree).withDepth 1).map (fun p => (p.1, p.2.y)) =
+    [(1, 13), (2, 11), (2, 11), (3, 9), (3, 9), (4, 7), (2, 11), (3, 9), (4, 7), (4, 7)] := by
+  decide +kernel
+
+/-- **mid-point**: every parent's `x` is the mid-point of its first and last child. -/
+theorem rt_midpoint (P : Params) (t : Tree) :
+    ∀ s ∈ (layout P t).subtrees, ∀ f l, s.children.head? = some f → s.children.getLast? = some l →
+      s.x = (f.x + l.x) / 2 := by
+  rw [layout_eq]
+  exact fin_midpoint P _ _ _ (firstPass_good P t) _ _
+
+-- non-vacuity: the root of the K1 drawing has three children, first at 0, last at 3, itself at 3/2
+example : (layout unitP k1Tree).x = 3/2 ∧ (layout unitP k1Tree).children.map FT.x = [0, 3/2, 3] := by
+  decide +kernel
+
+/-- **siblings**: consecutive children are at least the sibling separation apart, in
+    left-to-right order (strictly increasing `x` when the separation is positive). -/
+theorem rt_siblings (P : Params) (t : Tree) :
+    ∀ s ∈ (layout P t).subtrees, ∀ (i : Nat) (h : i + 1 < s.children.length),
+      s.children[i].x + P.sib ≤ s.children[i + 1].x ∧
+      (0 < P.sib → s.children[i].x < s.children[i + 1].x) := by
+  intro s hs i h
+  rw [layout_eq] at hs
+  have hc := fin_siblings P _ _ _ (firstPass_good P t) _ _ s hs
+  have := chain_get _ hc i h
+  exact ⟨this, fun hp => by grind⟩
+
+-- non-vacuity: a sibling group of four under non-unit separations
+example : (layout oddP (nd [nd [lf, lf], lf, nd [lf, lf, lf], lf])).children.map FT.x
+    = [11/4, 17/4, 23/4, 25/4] := by
+  decide +kernel
+
+/-- **non-negativity**: no `x` coordinate is negative (whatever the offsets). -/
+theorem rt_nonneg (P : Params) (t : Tree) : ∀ s ∈ (layout P t).subtrees, 0 ≤ s.x := by
+  rw [layout_eq]
+  apply nonneg_of_mid
+  · exact fin_midpoint P _ _ _ (firstPass_good P t) _ _
+  · intro s hs hleaf
+    have := fin_leaves P _ _ _ _ _ s hs hleaf
+    grind
+
+-- non-vacuity: a tree whose second pass produces negative x (leftmost leaf under a shifted parent)
+-- and a negative offset; after the third pass the minimum is exactly 0
+example : (layout { unitP with xoff := -3 } k1Tree).subtrees.map FT.x
+    = [3/2, 0, 3/2, 1, 2, 2, 3, 3, 5/2, 7/2] := by
+  decide +kernel
+
+/-- The remaining clause of C19 (cousin separation): any two nodes of one depth are at least
+    `min sibling_separation subtree_separation` apart in their left-to-right tree order.
+    NOT proved — it is false of the code (K1), see `rt_full_false`. What is missing in the code:
+    `_get_subtree_shift` compares only the last-child chain of the left subtree with the
+    first-child chain of the right subtree (after the two sibling scans), not the full contours. -/
+def RT_full : Prop :=
+  ∀ (P : Params) (t : Tree), 0 < P.sib → 0 < P.sub → 0 < P.lvl → 0 ≤ P.xoff → 0 ≤ P.yoff →
+    ∀ d : Nat, ((layout P t).level d).Pairwise (fun a b => a.x + min P.sib P.sub ≤ b.x)
+
+-- the witness: on depth 4 the drawing has e, h, i at 2, 5/2, 7/2
+example : ((layout unitP k1Tree).level 4).map FT.x = [2, 5/2, 7/2] := by decide +kernel
+
+/-- **K1**: the full statement is false of the pinned algorithm — on the 10-node tree
+    `r(a, b(c, d(e)), f(g(h, i)))` with all separations 1 the cousins `e` and `h` are 1/2 apart. -/
+theorem rt_full_false : ¬ RT_full := by
+  intro h
+  have := h unitP k1Tree (by decide +kernel) (by decide +kernel) (by decide +kernel)
+    (by decide +kernel) (by decide +kernel) 4
+  revert this
+  decide +kernel
+
+end C19
